@@ -12,6 +12,20 @@ import math
 
 from harness.common import Driver, LeanError, Report, f2b, b2f, lst, unlst, lean_stage, seeded
 
+REGISTRY = dict(
+    text=("Lean 4 theorems over every linear ordered field and every ordinate sequence: all queried abscissae lie in "
+          "[start,end]; the bracket keeps f(a)f(b)<=0 and never widens; on return |b-a|<tol with a sign change in the "
+          "initial interval; the one-at-a-time protocol equals the find_root_brents loop; termination with an explicit "
+          "bound whenever bisection is forced (0<start, end-start<2*eps*start: the solver's eps=1 calls away from 0). "
+          "PARTIAL: unguarded termination (TerminatesAlways) is stated, not proved. Model tied to the code by bit-exact "
+          "binary64 correspondence (whole runs and single steps from arbitrary states)."),
+    note=("Trusted: Lean kernel + propext/Classical.choice/Quot.sound; Mathlib; hand-written Model.Brent tied by "
+          "correspondence only; binary64 rounding not in the theorems; termination outside the forced-bisection guard is "
+          "validated by running the real class, not proved."),
+    technique="Lean 4 proof (induction over the ordinate tape) + bit-exact model/implementation correspondence",
+    design_ref="DESIGN.md §5 C19",
+)
+
 PROP_MODULE = "EmuVerif.Props.C19"
 AUDIT = "Audit/C19.lean"
 MAX_ITERS = 400
